@@ -34,6 +34,9 @@ def int_lower_bounds(facts) -> Dict[Term, int]:
         lb[t] = max(lb.get(t, 0), v)
     for f in facts:
         if f[0] != "cmp":
+            fs_ = strip(f)
+            if fs_[0] == "sub" or (fs_[0] == "call" and fs_[1] == ("ext", "int.from_bytes")):
+                up(fs_, 1)          # `if size:` for a byte-valued size: non-zero, i.e. >= 1
             continue
         op, a, b = f[1], strip(f[2]), strip(f[3])
         for x, y, o in ((a, b, op), (b, a, {"<": ">", ">": "<", "<=": ">=", ">=": "<=", "==": "==", "!=": "!="}.get(op))):
